@@ -63,8 +63,7 @@ def valid_op(rng, w):
         lo, up = raw_range(rng, w)
         # the optional execution tick: mostly not given; when given, any integer in the tick range, the small ones (-1, 0, 1) included
         tk = None if rng.random() < 0.75 else rng.choice((-1, 0, 1, -2, 2, w.tick + rng.randint(-50, 50)))
-        return {"op": "add_by_tick", "lower": lo, "upper": up, "base": bb * Decimal(rng.choice(("0.1", "0.3", "0.5"))),
-                "quote": qb * Decimal(rng.choice(("0.1", "0.3", "0.5"))), "sqrt": None, "tick": tk, "trim": True}
+        return {"op": "add_by_tick", "lower": lo, "upper": up, "base": U.offer(rng, bb), "quote": U.offer(rng, qb), "sqrt": None, "tick": tk, "trim": True}
     k = rng.choice(keys)
     if r < 0.45:
         liq = rng.choice((None, int(w.market.positions[k].liquidity) // 2, int(w.market.positions[k].liquidity) // 3, 0))
@@ -83,7 +82,7 @@ def valid_op(rng, w):
         return {"op": "add_by_value", "lower": lo, "upper": up, "value": (qb + bb * w.price) * Decimal(rng.choice(("0.1", "0.5", "0.9"))), "trim": True}
     lo, up = rand_range(rng, w)
     p1, p2 = w.market.tick_to_price(lo), w.market.tick_to_price(up)
-    return {"op": "add", "lower_price": min(p1, p2), "upper_price": max(p1, p2), "quote": qb * Decimal("0.2"), "base": bb * Decimal("0.2")}
+    return {"op": "add", "lower_price": min(p1, p2), "upper_price": max(p1, p2), "quote": U.offer(rng, qb), "base": U.offer(rng, bb)}
 
 
 CAUSES = [
